@@ -10,7 +10,7 @@ import (
 
 func main() {
 	if len(os.Args) < 2 {
-		fmt.Fprintln(os.Stderr, "usage: harness run|worker|replay|list ...")
+		fmt.Fprintln(os.Stderr, "usage: harness run|worker|replay|dump|list ...")
 		os.Exit(2)
 	}
 	fs := flag.NewFlagSet(os.Args[1], flag.ExitOnError)
@@ -19,6 +19,7 @@ func main() {
 	seed := fs.Uint64("seed", 1, "seed")
 	out := fs.String("out", "", "result json path")
 	file := fs.String("file", "", "replay file")
+	index := fs.Int("index", 0, "dump: member index of an enumerated family")
 	fs.Parse(os.Args[2:])
 	switch os.Args[1] {
 	case "worker":
@@ -43,6 +44,27 @@ func main() {
 			*prop = wc.Prop
 		}
 		os.Exit(parentMain(*prop, *tier, wc.Seed, *out, &wc))
+	case "dump": // print member -index of the property's enumerated family as a corpus/replay file
+		p := props[*prop]
+		if p == nil {
+			fmt.Fprintln(os.Stderr, "unknown property")
+			os.Exit(2)
+		}
+		for _, g := range p.Gens {
+			if g.Enum == nil {
+				continue
+			}
+			fam := g.Enum(*tier)
+			if *index < 0 || *index >= len(fam) {
+				fmt.Fprintln(os.Stderr, "index out of range")
+				os.Exit(2)
+			}
+			d, _ := json.Marshal(fam[*index])
+			b, _ := json.MarshalIndent(WireCase{Prop: p.ID, Gen: g.Name, Idx: *index, Data: d}, "", " ")
+			fmt.Println(string(b))
+			return
+		}
+		os.Exit(2)
 	case "list":
 		ids := make([]string, 0, len(props))
 		for id := range props {
